@@ -65,8 +65,29 @@ theorem fsEntry_reject_comm (c : RCfg) (s : FS) (f : Nat) (h : (fsEntry c s f).2
   · show (verdict c (updEntry s) f == Verdict.accept) = false
     rw [hvu]; exact hv
 
-theorem fsExit_updEntry (c : RCfg) (s : FS) : fsExit c (updEntry s) = updEntry (fsExit c s) := by
-  apply fs_ext <;> simp [fsExit, updEntry, topFr]
+theorem fsExit_updEntry (c : RCfg) (s : FS) : fsExit c (updEntry s) = updEntry (fsExit c s) := rfl
+
+/-- a verdict past the location check is `traceOff` exactly when tracing is off after the trigger -/
+theorem verdict_late (c : RCfg) (s : FS) (f : Nat) :
+    (verdict c s f = Verdict.traceOff → enAfter (c.trig f) s.enabled = false) ∧
+    ((verdict c s f).late = true → verdict c s f ≠ Verdict.traceOff → enAfter (c.trig f) s.enabled = true) := by
+  unfold verdict
+  by_cases h1 : s.outCount > 0
+  · simp [h1, Verdict.late]
+  · by_cases h2 : (c.trig f).filter = some false
+    · simp [h1, h2, Verdict.late]
+    · by_cases h3 : (!isIn (c.trig f) && c.optIn && decide (s.inCount = 0)) = true
+      · simp only [h1, h2, h3, ↓reduceIte, Verdict.late]; simp
+      · by_cases h4 : locReject c (c.trig f) = true
+        · simp only [h1, h2, h3, h4, ↓reduceIte, Verdict.late]; simp
+        · by_cases h5 : (!enAfter (c.trig f) s.enabled) = true
+          · simp only [h1, h2, h3, h4, h5, ↓reduceIte, Verdict.late]
+            simp at h5; simp [h5]
+          · have h5' : enAfter (c.trig f) s.enabled = true := by simpa using h5
+            simp only [h1, h2, h3, h4, h5, ↓reduceIte, Verdict.late]
+            refine ⟨?_, fun _ _ => h5'⟩
+            intro hh
+            by_cases h6 : (decide (depthAfter c s (c.trig f) = 0) || c.hide f) = true <;> simp [h6] at hh
 
 /-- facts about a rejected ENTRY that leaves tracing on -/
 theorem fsEntry_reject_facts (c : RCfg) (s : FS) (f : Nat) (h : (fsEntry c s f).2 = false)
@@ -75,21 +96,13 @@ theorem fsEntry_reject_facts (c : RCfg) (s : FS) (f : Nat) (h : (fsEntry c s f).
     (entryFr c s f).norecord = true := by
   have hv : (verdict c s f == Verdict.accept) = false := h
   have hv' : verdict c s f ≠ Verdict.accept := by simpa using hv
+  obtain ⟨vl1, vl2⟩ := verdict_late c s f
   have hntr : verdict c s f ≠ Verdict.traceOff := by
     intro ht
-    have : (fsEntry c s f).1.enabled = enAfter (c.trig f) s.enabled := by simp [fsEntry, ht, Verdict.late]
-    rw [this] at hen
-    -- verdict traceOff means enAfter is false
-    unfold verdict at ht
-    split at ht <;> try exact absurd ht (by decide)
-    split at ht <;> try exact absurd ht (by decide)
-    split at ht <;> try exact absurd ht (by decide)
-    split at ht <;> try exact absurd ht (by decide)
-    split at ht
-    · rename_i hoff; simp [hen] at hoff
-    · split at ht <;> exact absurd ht (by decide)
+    have h1 : (fsEntry c s f).1.enabled = enAfter (c.trig f) s.enabled := by simp [fsEntry, ht, Verdict.late]
+    rw [h1, vl1 ht] at hen
+    exact absurd hen (by decide)
   have hoffl : ((verdict c s f).late && (c.trig f).traceOff) = false := by
-    -- late and traceOff would have given verdict traceOff
     cases hl : (verdict c s f).late with
     | false => rfl
     | true =>
@@ -97,13 +110,8 @@ theorem fsEntry_reject_facts (c : RCfg) (s : FS) (f : Nat) (h : (fsEntry c s f).
       | false => rfl
       | true =>
         exfalso
-        have hea : enAfter (c.trig f) s.enabled = false := by simp [enAfter, hto]
-        unfold verdict at hl hntr hv'
-        split at hl <;> try (simp [Verdict.late] at hl)
-        split at hl <;> try (simp [Verdict.late] at hl)
-        split at hl <;> try (simp [Verdict.late] at hl)
-        split at hl <;> try (simp [Verdict.late] at hl)
-        simp [hea] at hntr
+        have := vl2 hl hntr
+        simp [enAfter, hto] at this
   refine ⟨?_, ?_, ?_⟩
   · simp [fsEntry, hv', hoffl]
   · simp [fsEntry, hv']
@@ -116,16 +124,8 @@ theorem fsEntry_accept_facts (c : RCfg) (s : FS) (f : Nat) (h : (fsEntry c s f).
   have hv : verdict c s f = Verdict.accept := by
     have : (verdict c s f == Verdict.accept) = true := h
     simpa using this
-  have hea : enAfter (c.trig f) s.enabled = true := by
-    have hv2 := hv
-    unfold verdict at hv2
-    split at hv2 <;> try exact absurd hv2 (by decide)
-    split at hv2 <;> try exact absurd hv2 (by decide)
-    split at hv2 <;> try exact absurd hv2 (by decide)
-    split at hv2 <;> try exact absurd hv2 (by decide)
-    split at hv2
-    · exact absurd hv2 (by decide)
-    · rename_i hoff; simpa using hoff
+  have hea : enAfter (c.trig f) s.enabled = true :=
+    (verdict_late c s f).2 (by rw [hv]; rfl) (by rw [hv]; decide)
   refine ⟨?_, ?_, ?_⟩
   · simp [fsEntry, hv, Verdict.late, hea]
   · simp [fsEntry, hv]
@@ -186,5 +186,189 @@ theorem checkSkip_sound_gen (c : RCfg) (s : FS) (r : Rec) (ht : r.type = 0) (hen
         · apply h6'.1
           simp only [depthAfter, hd, Option.getD_none, isIn]
           exact hz
+
+theorem stepA_noplt (c : RCfg) (hnl : c.noLibcall = false) (s : FS) (r : Rec) :
+    stepA c s r =
+      (if r.type = 0 then
+         (if (fsEntry c (account s r) r.addr).2 then
+            (updEntry (fsEntry c (account s r) r.addr).1, [shown r (fsEntry c (account s r) r.addr).1.dispDepth])
+          else ((fsEntry c (account s r) r.addr).1, []))
+       else if r.type = 1 then exitStep c (account s r) r false else (account s r, [])) := by
+  simp only [stepA, isPlt_false c hnl, Bool.false_eq_true, ↓reduceIte]
+
+/-- one record handled by replay's main loop, against the other loop -/
+theorem stepMain_sim (c : RCfg) (hnl : c.noLibcall = false) (s : FS) (r : Rec) (k : Nat)
+    (hr : (r.type = 0 ∧ r.depth = k) ∨ (r.type = 1 ∧ 1 ≤ k ∧ r.depth = k - 1)) :
+    ∃ owed, Sim c (if r.type = 0 then k + 1 else k - 1) (stepA c s r).1 (stepBmain c s r).1 owed ∧
+      (stepA c s r).2 = (stepBmain c s r).2 ++ owed := by
+  rcases hr with ⟨h0, hd⟩ | ⟨h1, hk, hd⟩
+  · rw [stepA_noplt c hnl, stepBmain_entry c hnl s r h0]
+    simp only [h0, ↓reduceIte]
+    cases hp : (fsEntry c (account s r) r.addr).2 with
+    | false => exact ⟨[], by simpa using Sim.idle _ _, by simp⟩
+    | true =>
+      simp only [Bool.not_true, Bool.false_eq_true, ↓reduceIte]
+      cases hm : c.noMerge with
+      | true => exact ⟨[], by simpa using Sim.idle _ _, by simp⟩
+      | false =>
+        simp only [Bool.false_eq_true, ↓reduceIte]
+        obtain ⟨a1, a2, a3⟩ := fsEntry_accept_facts c (account s r) r.addr hp
+        refine ⟨[shown r (fsEntry c (account s r) r.addr).1.dispDepth], ?_, by simp⟩
+        exact Sim.pend (k + 1) _ r _ [] (entryFr c (account s r) r.addr) (account s r).stack a1 a2 rfl
+          (by simp [fsEntry_stack]) a3 (by simp) (by simp [hd])
+  · have h0 : ¬ r.type = 0 := by omega
+    rw [stepA_noplt c hnl, stepBmain_exit c hnl s r h1]
+    simp only [h0, h1, ↓reduceIte]
+    exact ⟨[], by simpa using Sim.idle _ _, by simp⟩
+
+theorem runB_cons (c : RCfg) (s : RS) (r : Rec) (rs : List Rec) :
+    runB c s (r :: rs) = (stepB c s r).2 ++ runB c (stepB c s r).1 rs := rfl
+
+theorem runSteps_cons (step : FS → Rec → FS × List Rec) (s : FS) (r : Rec) (rs : List Rec) :
+    runSteps step s (r :: rs) = (step s r).2 ++ runSteps step (step s r).1 rs := rfl
+
+/-- replay's loop shows what the fstack_check_filter loop shows: any option set, any depth-consistent stream -/
+theorem sim_run (c : RCfg) (hnl : c.noLibcall = false) : ∀ (rs : List Rec) (k : Nat) (sA : FS) (sB : RS) (owed : List Rec),
+    Sim c k sA sB owed → WFD k rs → runB c sB rs = owed ++ runSteps (stepA c) sA rs
+  | [], k, sA, sB, owed, hs, _ => by
+    cases hs with
+    | idle => rfl
+    | pend => rfl
+  | r :: rs, k, sA, sB, owed, hs, hw => by
+    simp only [WFD] at hw
+    have hr : (r.type = 0 ∧ r.depth = k) ∨ (r.type = 1 ∧ 1 ≤ k ∧ r.depth = k - 1) := by
+      rcases hw with ⟨a, b, _⟩ | ⟨a, b, c', _⟩
+      · exact Or.inl ⟨a, b⟩
+      · exact Or.inr ⟨a, b, c'⟩
+    have hw' : WFD (if r.type = 0 then k + 1 else k - 1) rs := by
+      rcases hw with ⟨a, b, w⟩ | ⟨a, b, c', w⟩
+      · simpa [a] using w
+      · have : ¬ r.type = 0 := by omega
+        simpa [this] using w
+    have ht : r.type ≤ 1 := by rcases hr with ⟨a, _⟩ | ⟨a, _⟩ <;> omega
+    rw [runB_cons, runSteps_cons]
+    cases hs with
+    | idle =>
+      obtain ⟨ow, hsim, hout⟩ := stepMain_sim c hnl sA r k hr
+      have hB : stepB c ⟨sA, none⟩ r = stepBmain c sA r := rfl
+      rw [hB, sim_run c hnl rs _ _ _ ow hsim hw', hout]
+      simp [List.append_assoc]
+    | pend fs e d extra fe rest hen hds hdd hst hfe hex hk =>
+      by_cases hle : r.depth ≤ e.depth
+      · -- only the EXIT of the pending ENTRY is not deeper: folded leaf
+        have hx : r.type = 1 ∧ extra = [] ∧ r.depth = e.depth := by
+          rcases hr with ⟨a, b⟩ | ⟨a, b, c'⟩
+          · omega
+          · have : extra.length = 0 := by omega
+            exact ⟨a, List.eq_nil_of_length_eq_zero this, by omega⟩
+        obtain ⟨h1, hnil, hd⟩ := hx
+        subst hnil
+        rw [stepB_pend_leaf c fs e d r hd h1]
+        have h0 : ¬ r.type = 0 := by omega
+        rw [stepA_noplt c hnl]
+        simp only [h0, h1, ↓reduceIte]
+        have hacc := account_updEntry fs r
+        obtain ⟨a1, a2, a3, a4, a5, a6, a7, a8, a9⟩ :
+            (account fs r).stack = fs.stack ∧ (account fs r).enabled = fs.enabled ∧
+            (account fs r).dispDepth = fs.dispDepth ∧ (account fs r).dispSet = fs.dispSet ∧ True ∧ True ∧ True ∧ True ∧ True := by
+          simp only [account]; split <;> simp
+        have htop : topFr c (account (updEntry fs) r) = fe := by
+          rw [hacc]; simp [topFr, updEntry, a1, hst]
+        have hen' : (account (updEntry fs) r).enabled = true := by rw [hacc]; simp [updEntry, a2, hen]
+        have hback : updExit (updEntry (account fs r)) = account fs r := by
+          have e3 := a3; have e4 := a4
+          rw [hds] at e4
+          generalize account fs r = A at e3 e4
+          cases A
+          simp only at e4
+          subst e4
+          simp [updExit, updEntry]
+        have hstate : fsExit c (updExit (account (updEntry fs) r)) = fsExit c (account fs r) := by
+          rw [hacc, hback]
+        have hdisp : (updExit (account (updEntry fs) r)).dispDepth = d := by
+          rw [hacc]; simp [updExit, updEntry, a3, a4, hds, hdd]
+        unfold exitStep
+        rw [htop, hfe, hen']
+        simp only [Bool.not_true, Bool.or_self, Bool.false_eq_true, ↓reduceIte, hstate, hdisp]
+        rw [sim_run c hnl rs _ _ _ [] (Sim.idle _ _) hw']
+        simp
+      · have hlt : e.depth < r.depth := by omega
+        rw [stepB_pend_deeper c hnl fs e d r hlt ht]
+        by_cases hk2 : checkSkip c fs r = true
+        · simp only [hk2, ↓reduceIte]
+          rcases hr with ⟨h0, hd⟩ | ⟨h1, hk1, hd⟩
+          · -- a skipped ENTRY: fstack_entry rejects it
+            simp only [h0, ↓reduceIte]
+            have hrej : (fsEntry c (account fs r) r.addr).2 = false := by
+              have hen2 : (account fs r).enabled = true := by
+                simp only [account]; split <;> simp [hen]
+              have hcs : checkSkip c (account fs r) r = true := by
+                have : ∀ s' : FS, s'.inCount = fs.inCount → s'.outCount = fs.outCount → s'.depth = fs.depth →
+                    checkSkip c s' r = checkSkip c fs r := by
+                  intro s' e1 e2 e3
+                  simp only [checkSkip, h0, Nat.zero_ne_one, ↓reduceIte, e1, e2, e3]
+                rw [this _ (by simp only [account]; split <;> rfl) (by simp only [account]; split <;> rfl)
+                  (by simp only [account]; split <;> rfl)]
+                exact hk2
+              have := checkSkip_sound_gen c (account fs r) r h0 hen2 hcs
+              show (verdict c (account fs r) r.addr == Verdict.accept) = false
+              simpa using this
+            have hcomm : stepA c (updEntry fs) r = (updEntry (fsEntry c (account fs r) r.addr).1, []) := by
+              rw [stepA_noplt c hnl]
+              simp only [h0, ↓reduceIte, account_updEntry, fsEntry_reject_comm c _ _ hrej, Bool.false_eq_true]
+            rw [hcomm]
+            cases hen3 : (fsEntry c (account fs r) r.addr).1.enabled with
+            | false =>
+              simp only [Bool.not_false, ↓reduceIte]
+              rw [sim_run c hnl rs _ _ _ [] (Sim.idle _ _) (by simpa [h0] using hw')]
+            | true =>
+              simp only [Bool.not_true, Bool.false_eq_true, ↓reduceIte]
+              have hen2 : (account fs r).enabled = true := by
+                simp only [account]; split <;> simp [hen]
+              obtain ⟨f1, f2, f3⟩ := fsEntry_reject_facts c (account fs r) r.addr hrej hen3 hen2
+              have hacs : (account fs r).stack = fs.stack ∧ (account fs r).dispSet = fs.dispSet ∧
+                  (account fs r).dispDepth = fs.dispDepth := by
+                simp only [account]; split <;> simp
+              have hsim : Sim c (k + 1) (updEntry (fsEntry c (account fs r) r.addr).1)
+                  ⟨(fsEntry c (account fs r) r.addr).1, some (e, d)⟩ [shown e d] :=
+                Sim.pend (k + 1) _ e d (entryFr c (account fs r) r.addr :: extra) fe rest hen3
+                  (by rw [f1, hacs.2.1, hds]) (by rw [f2, hacs.2.2, hdd])
+                  (by rw [fsEntry_stack, hacs.1, hst]; rfl) hfe
+                  (by intro x hx; simp only [List.mem_cons] at hx; rcases hx with rfl | hx; exact f3; exact hex x hx)
+                  (by simp only [List.length_cons]; omega)
+              rw [sim_run c hnl rs _ _ _ _ hsim (by simpa [h0] using hw')]
+              simp
+          · -- a skipped EXIT: of a frame pushed while skipping (NORECORD)
+            have h0 : ¬ r.type = 0 := by omega
+            simp only [h0, ↓reduceIte]
+            have hne : extra ≠ [] := by
+              intro hn; subst hn; simp at hk; omega
+            obtain ⟨x0, xs, hxs⟩ := List.exists_cons_of_ne_nil hne
+            subst hxs
+            have hacs : (account fs r).stack = fs.stack ∧ (account fs r).enabled = fs.enabled ∧
+                (account fs r).dispSet = fs.dispSet ∧ (account fs r).dispDepth = fs.dispDepth := by
+              simp only [account]; split <;> simp
+            have hen4 : (fsExit c (account fs r)).enabled = true := by simp [fsExit, hacs.2.1, hen]
+            have hcomm : stepA c (updEntry fs) r = (updEntry (fsExit c (account fs r)), []) := by
+              rw [stepA_noplt c hnl]
+              simp only [h0, h1, ↓reduceIte, account_updEntry]
+              unfold exitStep
+              have htop : topFr c (updEntry (account fs r)) = x0 := by simp [topFr, updEntry, hacs.1, hst]
+              rw [htop, hex x0 (by simp)]
+              simp [fsExit_updEntry]
+            rw [hcomm, hen4]
+            simp only [Bool.not_true, Bool.false_eq_true, ↓reduceIte]
+            have hsim : Sim c (k - 1) (updEntry (fsExit c (account fs r))) ⟨fsExit c (account fs r), some (e, d)⟩
+                [shown e d] :=
+              Sim.pend (k - 1) _ e d xs fe rest hen4 (by simp [fsExit, hacs.2.2.1, hds])
+                (by simp [fsExit, hacs.2.2.2, hdd]) (by simp [fsExit, hacs.1, hst]) hfe
+                (fun x hx => hex x (by simp [hx])) (by simp only [List.length_cons] at hk; omega)
+            rw [sim_run c hnl rs _ _ _ _ hsim (by simpa [h0] using hw')]
+            simp
+        · -- not skipped: the pending line is printed, the main loop handles the record
+          simp only [hk2, Bool.false_eq_true, ↓reduceIte]
+          obtain ⟨ow, hsim, hout⟩ := stepMain_sim c hnl (updEntry fs) r k hr
+          rw [sim_run c hnl rs _ _ _ ow hsim hw', hout]
+          simp [List.append_assoc]
 
 end Uft.Fstack
